@@ -622,3 +622,93 @@ def par_mismatches(ctx, name, imports, fn, eqb, in_ty, out_ty, cases, shard=100)
         for r in ex.map(one, chunks):
             out.extend(r)
     return sorted(out)
+
+
+# ------------------------------------------------------------------------------------ map / big_map value types (C14, C15)
+
+class VT:
+    """A value type for map / big_map values. Values are integer *codes* (what the Coq model sees, V := Z):
+    for `int` the code is the integer itself; otherwise an index into a small universe of literals whose first
+    element is FALSY for pytezos (False, "", 0x, empty list/set/map: classes with __bool__/__len__)."""
+
+    def __init__(self, src, lits=None, dup=True):
+        self.src = src                      # Michelson type
+        self.lits = lits                    # [(source literal, micheline json)] or None for int
+        self.dup = dup                      # duplicable?
+        self.is_int = lits is None and dup
+        self.ticket = not dup
+
+    def codes(self):
+        return list(range(len(self.lits))) if self.lits else None
+
+    def gen(self, rng):
+        if self.is_int:
+            return rng.choice([0, 1, -1, 7, rng.randrange(-1000, 1000)])
+        if self.ticket:
+            return rng.choice([0, 1, 1, 2, 3])
+        return 0 if rng.random() < 0.45 else rng.randrange(len(self.lits))
+
+    def lit(self, code):
+        """source literal of a pushable value"""
+        return str(code) if self.is_int else self.lits[code][0]
+
+    def micheline(self, code):
+        return {'int': str(code)} if self.is_int else self.lits[code][1]
+
+    def push_opt(self, vo):
+        """code that leaves `option vt` (Some value / None) on the stack"""
+        if vo is None:
+            return f'NONE {self.src}'
+        if self.ticket:
+            return f'PUSH nat {vo}; PUSH string "tk"; TICKET; SOME'
+        return f'PUSH (option {self.src}) (Some {self.lit(vo)})'
+
+    def push_val(self, code):
+        if self.ticket:
+            return f'PUSH nat {code}; PUSH string "tk"; TICKET'
+        return f'PUSH {self.src} {self.lit(code)}'
+
+    def decode_micheline(self, m):
+        """Micheline of a value -> code (or -999)"""
+        import json
+        m = lib.canon_micheline(m)
+        if self.is_int:
+            return int(m['int']) if isinstance(m, dict) and 'int' in m else -999
+        if self.ticket:                      # option (ticket string): None | Some (Pair addr "tk" amount)
+            if m.get('prim') == 'None':
+                return 0
+            try:
+                args = m['args'][0]['args']
+                return int((args[2] if len(args) == 3 else args[1]['args'][1])['int'])
+            except (KeyError, IndexError, TypeError):
+                return -999
+        j = json.dumps(m, sort_keys=True)
+        for i, (_, mm) in enumerate(self.lits):
+            if json.dumps(lib.canon_micheline(mm), sort_keys=True) == j:
+                return i
+        return -999
+
+    def decode(self, v):
+        return self.decode_micheline(v.to_micheline_value(mode='readable'))
+
+
+def _elt(k, v):
+    return {'prim': 'Elt', 'args': [k, v]}
+
+
+VT_INT = VT('int')
+VT_TICKET = VT('(option (ticket string))', dup=False)
+VALUE_TYPES = [
+    VT_INT,
+    VT('bool', [('False', {'prim': 'False'}), ('True', {'prim': 'True'})]),
+    VT('string', [('""', {'string': ''}), ('"a"', {'string': 'a'}), ('"b c"', {'string': 'b c'})]),
+    VT('bytes', [('0x', {'bytes': ''}), ('0x00', {'bytes': '00'}), ('0xff01', {'bytes': 'ff01'})]),
+    VT('(list nat)', [('{}', []), ('{ 0 }', [{'int': '0'}]), ('{ 1 ; 2 }', [{'int': '1'}, {'int': '2'}])]),
+    VT('(set int)', [('{}', []), ('{ 0 }', [{'int': '0'}]), ('{ -1 ; 5 }', [{'int': '-1'}, {'int': '5'}])]),
+    VT('(map string nat)', [('{}', []), ('{ Elt "" 0 }', [_elt({'string': ''}, {'int': '0'})]),
+                            ('{ Elt "a" 1 ; Elt "b" 2 }', [_elt({'string': 'a'}, {'int': '1'}), _elt({'string': 'b'}, {'int': '2'})])]),
+    VT('(option int)', [('None', {'prim': 'None'}), ('(Some 0)', {'prim': 'Some', 'args': [{'int': '0'}]}),
+                        ('(Some 7)', {'prim': 'Some', 'args': [{'int': '7'}]})]),
+    VT('(pair bool string)', [('(Pair False "")', {'prim': 'Pair', 'args': [{'prim': 'False'}, {'string': ''}]}),
+                              ('(Pair True "x")', {'prim': 'Pair', 'args': [{'prim': 'True'}, {'string': 'x'}]})]),
+]
